@@ -407,5 +407,112 @@ Proof.
   apply (temit_tcspec _ g n x g1 log Sh An Fu E1 P c KP Hc).
 Qed.
 
+(* ---- links stay consistent after such a step; the next emission follows the edited topology ---- *)
+Theorem reentrant_links_consistent g n x t e :
+  reachable g -> wf_op g (ORemit n x t e) ->
+  let g' := step_g g (ORemit n x t e) in
+  (forall u d, t_alive (tget g' u) = true -> t_alive (tget g' d) = true ->
+     (In d (t_downs (tget g' u)) <-> In u (t_ups (tget g' d)))) /\
+  (forall i, t_alive (tget g' i) = true -> NoDup (t_ups (tget g' i)) /\ NoDup (t_downs (tget g' i))) /\
+  (forall i j, t_alive (tget g' i) = true -> In j (t_ups (tget g' i)) \/ In j (t_downs (tget g' i)) -> j < length g') /\
+  (forall u d, t_alive (tget g' d) = true -> In u (t_ups (tget g' d)) -> u < d) /\
+  (forall u d, t_alive (tget g' u) = true -> In d (t_downs (tget g' u)) -> u < d).
+Proof. intros R W. apply links_consistent. apply reachable_step; auto. Qed.
+
+(* also at the moment the step ends but before anything is collected: the graph the emission leaves behind, whether
+   it returned or raised, satisfies the whole invariant (links at both ends, per-input state aligned, no zip wedged) *)
+Theorem reentrant_raw_invariant g n x t e g' p' r log :
+  reachable g -> wf_op g (ORemit n x t e) ->
+  rdeliver (S (length g)) g (Some (t, e)) n x = (g', p', r, log) -> TInv0 g'.
+Proof.
+  intros R (_ & _ & _ & We & _) E.
+  apply (rdeliver_rspec _ g (Some (t, e)) n x g' p' r log (reachable_inv g R) We E).
+Qed.
+
+Theorem reentrant_next_emit_follows_new_topology g n x t e m y g2 r log :
+  reachable g -> wf_op g (ORemit n x t e) ->
+  let g1 := step_g g (ORemit n x t e) in
+  wf_op g1 (OEmit m y) -> tstep g1 (OEmit m y) = (g2, r, log) ->
+  r = ROk /\
+  (forall s d v, In (s, d, v) log -> t_alive (tget g1 d) = true /\ In d (t_downs (tget g1 s))) /\
+  filter (fun e => fst (fst e) =? m) log = map (fun d => (m, d, y)) (t_downs (tget g1 m)).
+Proof.
+  intros R W g1 W1 E. apply (dropped_branch_silent g1 m y g2 r log); auto. apply reachable_step; auto.
+Qed.
+
+(* ---- non-vacuity: a legal history with two edits made from inside a callback ---- *)
+Definition c15r_ops : list top :=
+  [ ONew TPipe []; ONew TPipe [0];                          (* 0 source, 1 the parent *)
+    ONew TRSink [1]; ONew TSink [1]; ONew TPipe [1]; ONew TSink [4];   (* its children 2 (reactive), 3, 4 (-> 5) *)
+    ONew TPipe []; ONew TSink [6];                          (* 6 -> 7: a detached branch *)
+    ORemit 0 (VInt 1%Z) 2 (EConnect 4 6);                   (* 2 connects 4 -> 6 while 1 is still handing out 1:
+                                                               the _emit of 4 starts afterwards and serves 6 *)
+    ORemit 0 (VInt 2%Z) 2 (EDisconnect 1 3);                (* 2 detaches its sibling 3: the running loop of 1 still
+                                                               serves 3 (snapshot), 4 is untouched *)
+    OEmit 0 (VInt 3%Z) ].                                   (* follows the new topology: 3 gets nothing *)
+
+Example c15_reentrant_nonvacuous :
+  legal [] c15r_ops /\
+  map (fun o => (to_raised o, to_deliv o)) (skipn 8 (trun [] c15r_ops)) =
+    [ (false, [(0, 1, VInt 1%Z); (1, 2, VInt 1%Z); (1, 3, VInt 1%Z); (1, 4, VInt 1%Z); (4, 5, VInt 1%Z);
+               (4, 6, VInt 1%Z); (6, 7, VInt 1%Z)]);
+      (false, [(0, 1, VInt 2%Z); (1, 2, VInt 2%Z); (1, 3, VInt 2%Z); (1, 4, VInt 2%Z); (4, 5, VInt 2%Z);
+               (4, 6, VInt 2%Z); (6, 7, VInt 2%Z)]);
+      (false, [(0, 1, VInt 3%Z); (1, 2, VInt 3%Z); (1, 4, VInt 3%Z); (4, 5, VInt 3%Z); (4, 6, VInt 3%Z);
+               (6, 7, VInt 3%Z)]) ] /\
+  links_of (run_ops [] c15r_ops) =
+    [ (true, [], [1]); (true, [0], [2; 4]); (true, [1], []); (true, [], []); (true, [1], [5; 6]);
+      (true, [4], []); (true, [4], [7]); (true, [6], []) ].
+Proof.
+  split; [apply legalb_sound; vm_compute; reflexivity|]. split; vm_compute; reflexivity.
+Qed.
+
+(* the hypotheses of reentrant_untouched_sibling are met by the second edit of that history, for the parent 1 and
+   its untouched child 4, and the count is 1 = 1 + 0 *)
+Example c15_reentrant_sibling_nonvacuous :
+  let g := run_ops [] (firstn 9 c15r_ops) in
+  reachable g /\ wf_op g (ORemit 0 (VInt 2%Z) 2 (EDisconnect 1 3)) /\
+  exists g' log, tstep g (ORemit 0 (VInt 2%Z) 2 (EDisconnect 1 3)) = (g', ROk, log) /\
+    tk (tget g 1) = TPipe /\ In 4 (t_downs (tget g 1)) /\ t_alive (tget g' 1) = true /\ In 4 (t_downs (tget g' 1)) /\
+    cnt_edge 1 4 log = 1 /\ cnt_to 1 log = 1 /\
+    (* the detached sibling was still served from the snapshot *)
+    In 3 (t_downs (tget g 1)) /\ ~ In 3 (t_downs (tget g' 1)) /\ cnt_edge 1 3 log = 1.
+Proof.
+  cbv zeta. split.
+  - exists (firstn 9 c15r_ops). split; auto. apply legalb_sound. vm_compute. reflexivity.
+  - split; [apply wf_opb_sound; vm_compute; reflexivity|].
+    eexists. eexists. split; [vm_compute; reflexivity|].
+    vm_compute. repeat split; auto. intros [H|[H|[]]]; discriminate.
+Qed.
+
+(* ---- without "the emission returned" the sibling statement is FALSE of the faithful model: a combining node
+        detached by the edit is still served from the running loop's snapshot, its update raises (zip:
+        self.buffers[who], combine_latest: self.upstreams.index(who)), the emission unwinds and the siblings that
+        come later - whose edges nobody touched - never see the element ---- *)
+Definition c15r_bad_ops : list top :=
+  [ ONew TPipe []; ONew TPipe []; ONew TRSink [0]; ONew TZip [0; 1]; ONew TSink [3]; ONew TSink [0] ].
+
+Theorem reentrant_untouched_sibling_refuted :
+  exists ops n x t e P c,
+    legal [] ops /\
+    let g := run_ops [] ops in
+    wf_op g (ORemit n x t e) /\
+    exists g' log, tstep g (ORemit n x t e) = (g', RRaise, log) /\
+      tk (tget g P) = TPipe /\ In c (t_downs (tget g P)) /\ t_alive (tget g' P) = true /\ In c (t_downs (tget g' P)) /\
+      cnt_edge P c log = 0 /\ cnt_to P log + b2n (n =? P) = 1.
+Proof.
+  exists c15r_bad_ops, 0, (VInt 2%Z), 2, (EDisconnect 0 3), 0, 5.
+  split; [apply legalb_sound; vm_compute; reflexivity|]. cbv zeta.
+  split; [apply wf_opb_sound; vm_compute; reflexivity|].
+  eexists. eexists. split; [vm_compute; reflexivity|].
+  vm_compute. repeat split; auto.
+Qed.
+
 Print Assumptions reentrant_untouched_sibling.
 Print Assumptions emit_forwarded_to_every_child.
+Print Assumptions reentrant_links_consistent.
+Print Assumptions reentrant_raw_invariant.
+Print Assumptions reentrant_next_emit_follows_new_topology.
+Print Assumptions c15_reentrant_nonvacuous.
+Print Assumptions c15_reentrant_sibling_nonvacuous.
+Print Assumptions reentrant_untouched_sibling_refuted.
